@@ -214,7 +214,20 @@ pub fn build_world(r: &mut Rng, cfg: &WorldCfg) -> Built {
         }
         let img = elfgen::build(&spec);
         // the third library's path carries a character outside the basic multilingual plane
-        let path = format!("/usr/lib/libsim{}{}.so.{}.{}", i, if i == 2 { "-\u{1D4B3}" } else { "" }, r.below(4), r.below(30));
+        let mut path = format!("/usr/lib/libsim{}{}.so.{}.{}", i, if i == 2 { "-\u{1D4B3}" } else { "" }, r.below(4), r.below(30));
+        if i == 1 && r.chance(1, 6) {
+            // a library under a very long path (legal up to PATH_MAX); multi-byte characters so that a
+            // cut at a fixed length can fall inside one
+            let want = *r.pick(&[254usize, 257, 300, 1000]);
+            let mut dir = String::from("/usr/lib/");
+            while dir.len() + 30 < want {
+                dir.push_str("dé");
+                if dir.len() % 50 < 3 {
+                    dir.push('/');
+                }
+            }
+            path = format!("{}/libsim1.so.{}", dir, r.below(9));
+        }
         let base = LIB_BASE + i as u64 * 0x100_0000;
         libs.push((path, base, img));
     }
